@@ -3,7 +3,144 @@ import GnpyModel
 /- driver handlers for property C14 (ops are named "c14.<name>") -/
 open Lean
 namespace Gnpy.Drv.C14
+open Gnpy.Slots
 
-def handlers : List (String × Handler) := []
+/-- cells cross the pipe as the string of `str(BitmapValue)`: '1' free, '0' occupied, 'u' unusable -/
+def cellsOfString (s : String) : R (List Cell) :=
+  s.toList.mapM (fun c => match c with
+    | '1' => pure Cell.free
+    | '0' => pure Cell.occupied
+    | 'u' => pure Cell.unusable
+    | _ => throw s!"bad cell {c}")
+
+def stringOfCells (l : List Cell) : String :=
+  String.ofList (l.map (fun c => match c with
+    | .free => '1'
+    | .occupied => '0'
+    | .unusable => 'u'))
+
+def jBitmap (b : Bitmap) : Json :=
+  jObj [("n_min", jInt b.nMin), ("n_max", jInt b.nMax), ("idx_min", jInt b.idxMin), ("idx_max", jInt b.idxMax),
+        ("freq_index", jList jInt b.freqIndex), ("cells", jStr (stringOfCells b.cells)), ("guardband", jInt b.guardband)]
+
+def jOms (o : Oms) : Json :=
+  jObj [("bm", jBitmap o.bm), ("nb_channels", jInt o.nbChannels), ("services", jList jStr o.services)]
+
+/-- {"f_min":…, "f_max":…, "grid":…, "guardband":…, "cells": "11u0…" | null} → Bitmap.create -/
+def getBitmap (j : Json) : R (Except String Bitmap) := do
+  let fMin ← fInt j "f_min"
+  let fMax ← fInt j "f_max"
+  let grid ← fInt j "grid"
+  let gb ← fInt j "guardband"
+  let cells ← match optFld j "cells" with
+    | none => pure none
+    | some c => do pure (some (← cellsOfString (← getStr c)))
+  return Bitmap.create fMin fMax grid gb cells
+
+def jErr (e : String) : Json := jObj [("error", jStr e)]
+
+def getEntry (j : Json) : R Entry := do
+  return { n := ← fOpt getInt j "N", m := ← fOpt getInt j "M" }
+
+def getPolicy (j : Json) : R Policy := do
+  match ← fStr j "policy" with
+  | "first_fit" => return .firstFit
+  | "last_fit" => return .lastFit
+  | _ => return .other
+
+def getRequest (j : Json) : R Request := do
+  return { id := ← fStr j "id", preBlocked := ← fBool j "pre_blocked", entries := ← fList getEntry j "slots",
+           pathBandwidth := ← fInt j "path_bandwidth", bitRate := ← fInt j "bit_rate", spacing := ← fInt j "spacing",
+           pathOms := ← fList getNat j "path_oms" }
+
+def jNM (l : List (Int × Int)) : Json :=
+  jObj [("N", jList jInt (l.map (·.1))), ("M", jList jInt (l.map (·.2)))]
+
+def jOutcome : Outcome → Json
+  | .skipped => jObj [("kind", jStr "skipped")]
+  | .blocked r => jObj [("kind", jStr "blocked"), ("reason", jStr r)]
+  | .accepted nm => jObj [("kind", jStr "accepted"), ("nm", jNM nm)]
+
+/-- build the initial OMS list; an error of a constructor is reported as {"error": kind} -/
+def getState (j : Json) : R (Except String (List Oms)) := do
+  let bs ← fList getBitmap j "oms"
+  return bs.mapM (fun b => do
+    let bm ← b
+    pure ({ bm := bm, nbChannels := 0, services := [] } : Oms))
+
+/-- a history: one `pth_assign_spectrum` call per request; stops at the first exception -/
+def history (j : Json) : R Json := do
+  let pol ← getPolicy j
+  let reqs ← fList getRequest j "requests"
+  match ← getState j with
+  | .error e => return jObj [("init_error", jStr e)]
+  | .ok s0 =>
+    let rec go (s : List Oms) (rs : List Request) (acc : List Json) : List Json :=
+      match rs with
+      | [] => acc.reverse
+      | r :: rs =>
+        match step pol s r with
+        | .error e => (jErr e :: acc).reverse
+        | .ok (s', o) => go s' rs (jObj [("outcome", jOutcome o), ("oms", jList jOms s')] :: acc)
+    return jObj [("init", jList jOms s0), ("steps", Json.arr (go s0 reqs []).toArray)]
+
+def getBm (j : Json) : R (Except String Bitmap) := do getBitmap (← fld j "bitmap")
+
+def exceptJson (f : α → Json) : Except String α → Json
+  | .ok v => jObj [("ok", f v)]
+  | .error e => jErr e
+
+/-- spectrum_selection on one bitmap; "n": requested_n or null -/
+def select (j : Json) : R Json := do
+  let pol ← getPolicy j
+  let m ← fInt j "m"
+  let n ← fOpt getInt j "n"
+  match ← getBm j with
+  | .error e => return jObj [("init_error", jStr e)]
+  | .ok b =>
+    match n with
+    | none => return exceptJson (jOpt jInt) (spectrumSelection b m pol)
+    | some n => return exceptJson (jOpt jInt) (spectrumSelectionAt b m n)
+
+/-- determine_slot_numbers -/
+def dsn (j : Json) : R Json := do
+  let n ← fInt j "n"
+  let req ← fInt j "required_m"
+  let pcm ← fInt j "pcm"
+  match ← getBm j with
+  | .error e => return jObj [("init_error", jStr e)]
+  | .ok b => return exceptJson jInt (determineSlotNumbers b n req pcm)
+
+/-- OMS.assign_spectrum -/
+def assign (j : Json) : R Json := do
+  let n ← fInt j "n"
+  let m ← fInt j "m"
+  match ← getBm j with
+  | .error e => return jObj [("init_error", jStr e)]
+  | .ok b => return exceptJson jBitmap (assignSpectrum b n m)
+
+/-- order_slots and restore_order -/
+def order (j : Json) : R Json := do
+  let es ← fList getEntry j "slots"
+  let o := orderSlots es
+  let elems ← fList (getOpt getInt) j "elements"
+  return jObj [("N", jList (jOpt jInt) (o.map (·.2.n))), ("M", jList (jOpt jInt) (o.map (·.2.m))),
+               ("order", jList jNat (o.map (·.1))),
+               ("restored", jList jInt (restoreOrder elems (o.map (·.1))))]
+
+/-- bitmap_sum -/
+def bsum (j : Json) : R Json := do
+  let a ← cellsOfString (← fStr j "a")
+  let b ← cellsOfString (← fStr j "b")
+  return jStr (stringOfCells (bitmapSum a b))
+
+/-- compute_spectrum_slot_vs_bandwidth -/
+def slots (j : Json) : R Json := do
+  return exceptJson (fun p => Json.arr #[jInt p.1, jInt p.2])
+    (slotsVsBandwidth (← fInt j "bandwidth") (← fInt j "spacing") (← fInt j "bit_rate"))
+
+def handlers : List (String × Handler) :=
+  [("c14.history", history), ("c14.select", select), ("c14.dsn", dsn), ("c14.assign", assign),
+   ("c14.order", order), ("c14.bsum", bsum), ("c14.slots", slots)]
 
 end Gnpy.Drv.C14
